@@ -36,14 +36,22 @@ def checkAlg (k : Key) (alg : JVal) : Except Err Unit :=
   let d := k.get "alg"
   if d.truthy && !(pyEq d alg) then .error .unsupportedKeyAlgorithm else .ok ()
 
+/-- first half of `check_key_op`: declared `key_ops` must include the operation -/
+def keyOpsStep (k : Key) (operation : String) : Except Err Unit :=
+  let ko := k.get "key_ops"
+  if ko.isNone then .ok ()
+  else do ensure (← pyIn (.str operation) ko) .unsupportedKeyOperation
+
+/-- second half: operations flagged private need private material -/
+def privStep (ops : List KeyOpRow) (k : Key) (operation : String) : Except Err Unit :=
+  match ops.find? (·.name == operation) with
+  | none => .error .assertionError
+  | some reg => ensure (!(reg.priv == some true && !k.isPrivate)) .unsupportedKeyOperation
+
 /-- `check_key_op(operation)`; `ops` = `JWK_OPERATION_REGISTRY`. -/
 def checkKeyOp (ops : List KeyOpRow) (k : Key) (operation : String) : Except Err Unit := do
-  let ko := k.get "key_ops"
-  if !ko.isNone then
-    ensure (← pyIn (.str operation) ko) .unsupportedKeyOperation
-  match ops.find? (·.name == operation) with
-  | none => throw .assertionError
-  | some reg => ensure (!(reg.priv == some true && !k.isPrivate)) .unsupportedKeyOperation
+  keyOpsStep k operation
+  privStep ops k operation
 
 end Key
 
